@@ -17,7 +17,7 @@ m = {
   "add_only": True
  },
  "engines": [
-  {"name": "vx", "path": "/verif/harness/vx", "serves_properties": sorted(checks),
+  {"name": "vx", "path": "/verif/harness/vx", "serves_properties": sorted(k for k in checks if checks[k].get("ready")),
    "kind_free_text": "hand-written explorers over the real Go code: worker-pool with crash containment, explicit-state BFS with canonical-state dedup, deviation-bounded search, cooperative thread scheduler over hook points (testing/synctest quiescence), store-write crash-point enumeration, bounded-exhaustive input enumeration"}
  ],
  "checks": [],
@@ -25,7 +25,7 @@ m = {
  "notes": "All checks: ./vcheck <ID> quick|thorough (cwd /verif). Known findings: /verif/known_findings.json. Design: /verif/DESIGN.md."
 }
 for cid in props:
-    if cid in checks:
+    if cid in checks and checks[cid].get('ready'):
         c = checks[cid]
         m["checks"].append({
             "property_id": cid,
